@@ -68,7 +68,13 @@ fn worker_body(
     let mut out = std::io::BufWriter::with_capacity(1 << 16, out.lock());
     let mut stats = RunStats::default();
     let mut sets: BTreeMap<u8, HashSet<u64>> = BTreeMap::new();
-    let batch = engine.batch().max(1);
+    // COSIM_FINE: report progress after every run (the supervisor uses it to locate the run
+    // during which a worker dies)
+    let batch = if std::env::var_os("COSIM_FINE").is_some() {
+        1
+    } else {
+        engine.batch().max(1)
+    };
     let mut nviol = 0u64;
     let mut i = from;
     let _ = writeln!(out, "P {}", from);
@@ -265,7 +271,13 @@ fn describe_status(st: &std::process::ExitStatus) -> String {
     }
 }
 
-fn spawn_worker(engine: &dyn Engine, opts: &Opts, from: u64, to: u64) -> std::io::Result<Child> {
+fn spawn_worker(
+    engine: &dyn Engine,
+    opts: &Opts,
+    from: u64,
+    to: u64,
+    fine: bool,
+) -> std::io::Result<Child> {
     let exe = match opts.config.as_ref().and_then(|c| c.exe) {
         Some(p) => std::path::PathBuf::from(p),
         None => std::env::current_exe()?,
@@ -287,6 +299,11 @@ fn spawn_worker(engine: &dyn Engine, opts: &Opts, from: u64, to: u64) -> std::io
     if let Some(c) = &opts.config {
         cmd.arg("--config").arg(c.name);
     }
+    if fine {
+        cmd.env("COSIM_FINE", "1");
+    } else {
+        cmd.env_remove("COSIM_FINE");
+    }
     cmd.stdin(Stdio::null())
         .stdout(Stdio::piped())
         .stderr(Stdio::piped());
@@ -295,8 +312,18 @@ fn spawn_worker(engine: &dyn Engine, opts: &Opts, from: u64, to: u64) -> std::io
 
 /// Run one worker over [from, to) and collect what it reports.
 fn run_worker(engine: &dyn Engine, opts: &Opts, from: u64, to: u64) -> (Merged, WorkerEnd) {
+    run_worker_opt(engine, opts, from, to, false)
+}
+
+fn run_worker_opt(
+    engine: &dyn Engine,
+    opts: &Opts,
+    from: u64,
+    to: u64,
+    fine: bool,
+) -> (Merged, WorkerEnd) {
     let mut m = Merged::default();
-    let child = match spawn_worker(engine, opts, from, to) {
+    let child = match spawn_worker(engine, opts, from, to, fine) {
         Ok(c) => c,
         Err(e) => {
             return (
@@ -485,6 +512,7 @@ fn process_range(engine: &dyn Engine, opts: &Opts, from: u64, to: u64) -> Merged
     let mut total = Merged::default();
     let mut cur = from;
     let mut unexplained_deaths = 0;
+    let mut culprits = 0;
     while cur < to {
         let (m, end) = run_worker(engine, opts, cur, to);
         match end {
@@ -518,7 +546,23 @@ fn process_range(engine: &dyn Engine, opts: &Opts, from: u64, to: u64) -> Merged
                 // 2. find the run in the window that kills a fresh worker on its own
                 let win_end = (progress + engine.batch()).min(to);
                 let mut culprit = None;
-                for i in progress..win_end {
+                // one worker over the window that reports after every run tells where it dies;
+                // the runs before that point are collected in one go, and only from there on are
+                // runs tried alone
+                let mut start = progress;
+                if win_end - progress > 1 {
+                    let (_mf, endf) = run_worker_opt(engine, opts, progress, win_end, true);
+                    if let WorkerEnd::Died { progress: pf, .. } = endf {
+                        if pf > progress && pf < win_end {
+                            let (m2, end2) = run_worker(engine, opts, progress, pf);
+                            if let WorkerEnd::Done = end2 {
+                                total.absorb(m2);
+                                start = pf;
+                            }
+                        }
+                    }
+                }
+                for i in start..win_end {
                     let (m3, end3) = run_worker(engine, opts, i, i + 1);
                     match end3 {
                         WorkerEnd::Done => total.absorb(m3),
@@ -563,6 +607,17 @@ fn process_range(engine: &dyn Engine, opts: &Opts, from: u64, to: u64) -> Merged
                         total.counters.inc("violating_runs");
                         total.completed += 1;
                         cur = i + 1;
+                        culprits += 1;
+                        if culprits >= 4 {
+                            // the check has failed four times over in this stretch; locating
+                            // every further dying run one by one would take hours on a tree where
+                            // thousands of runs die
+                            total
+                                .counters
+                                .inc("probe:range-abandoned-after-repeated-node-deaths");
+                            eprintln!("note: four runs of {}..{} killed their worker; the rest of this stretch ({}..{}) is not executed", from, to, cur, to);
+                            break;
+                        }
                     }
                     None if {
                         // does the death come back when the same stretch runs again in one fresh
@@ -1337,6 +1392,13 @@ fn write_evidence(
         .set(
             "fault_kinds",
             Json::Arr(info.fault_kinds.iter().map(|s| Json::s(*s)).collect()),
+        )
+        .set(
+            "build_configurations",
+            Json::Arr(vec![
+                Json::s("std:off - coset without its `std` feature, optimised, debug assertions and overflow checks ON; executes every run"),
+                Json::s("std:on - coset with its `std` feature, ordinary release profile (debug assertions and overflow checks OFF); executes the first quarter of the run indices again"),
+            ]),
         )
         .set(
             "components_real_code",
